@@ -26,15 +26,30 @@ def dense(E, cores):
     return acc
 
 
-def tt_input(E, name, N, R, dtype='float64', M=None):
+def tt_input(E, name, N, R, dtype='float64', M=None, via=None):
+    """TT object with free core entries.  via='sliced': the object is obtained by slicing a larger one with strides, so
+    its cores are non-contiguous views (every second entry of modes of size 2n+1); via='transposed' (operators): the
+    object is the transpose of an operator built with M and N exchanged (cores are permuted views)."""
     cores = []
     for k in range(len(N)):
-        if M is None:
-            shp = [R[k], N[k], R[k + 1]]
-        else:
-            shp = [R[k], M[k], N[k], R[k + 1]]
+        n, m = N[k], (M[k] if M is not None else None)
+        if via == 'sliced':
+            n = 2 * n - 1
+            m = (2 * m - 1) if m is not None else None
+        if via == 'transposed' and M is not None:
+            n, m = m, n
+        shp = [R[k], n, R[k + 1]] if M is None else [R[k], m, n, R[k + 1]]
         cores.append(E.tensor('%s%d' % (name, k), shp, dtype))
-    return E.tt.TT(cores), cores
+    x = E.tt.TT(cores)
+    if via == 'sliced':
+        d = len(N)
+        key = tuple([slice(None, None, 2)] * (d if M is None else 2 * d))
+        x = x[key]
+        return x, list(x.cores)
+    if via == 'transposed' and M is not None:
+        x = x.t()
+        return x, list(x.cores)
+    return x, cores
 
 
 def snapshot(E, cores):
